@@ -154,6 +154,24 @@ func (c *channel) enqueue(req request, responseChan chan<- response, streaming b
 		c.routeResponse(req.msg.Metadata.MessageID, response{nid: c.node.ID(), err: req.ctx.Err()})
 		return
 	case c.sendQ <- req:
+		// with a send buffer the request may have been queued after the sender
+		// stopped (node closed): make sure it is answered
+		if c.parentCtx.Err() != nil {
+			c.failQueued()
+		}
+	}
+}
+
+// failQueued answers every request that is still in the send queue of a closed
+// channel, so that no caller is left waiting for a sender that has stopped.
+func (c *channel) failQueued() {
+	for {
+		select {
+		case req := <-c.sendQ:
+			c.routeResponse(req.msg.Metadata.MessageID, response{nid: c.node.ID(), err: fmt.Errorf("channel closed")})
+		default:
+			return
+		}
 	}
 }
 
@@ -224,6 +242,7 @@ func (c *channel) sender() {
 	for {
 		select {
 		case <-c.parentCtx.Done():
+			c.failQueued()
 			return
 		case req = <-c.sendQ:
 		}
